@@ -292,6 +292,14 @@ let run_case (s : sx) : string =
   let rec firstn n l = if n <= 0 then [] else match l with [] -> [] | x :: r -> x :: firstn (n - 1) r in
   let impl (id : BinNums.coq_N) (a : Enc.gval list) : Call.fout =
     match Stdlib.List.assoc_opt id !behave with
+    | Some ("conc", _) ->
+        (* the functions of the concurrent family: f_k(x, s) = ("f<k>(<x>,<s>)", x*100+k) *)
+        (match a with
+         | [Enc.GInt (_, x); Enc.GString str] ->
+             let k = int_of_n id in
+             let text = bytes_of_string ("f" ^ string_of_int k ^ "(" ^ string_of_z x ^ ",") @ str @ bytes_of_string ")" in
+             Call.FRet ([Enc.GString text; Enc.GInt (Enc.KInt, BinInt.Z.add (BinInt.Z.mul x (z_of_int 100)) (z_of_int k))], None)
+         | _ -> Call.FPanic (bytes_of_string "conc: unexpected arguments"))
     | Some ("echo", nres) ->
         (match scripted () with
          | Call.FRet (_, None) -> Call.FRet (firstn nres a, None)
